@@ -399,6 +399,18 @@ func (w *World) DrawAction(rt *rapid.T, p *Profile) (Action, string) {
 		}
 		k := rapid.IntRange(1, minInt(3, len(names))).Draw(rt, "k")
 		return Action{Op: "finishPods", Names: rapid.Permutation(names).Draw(rt, "pods")[:k]}, "finishPods"
+	case "replacePod": // a pod is deleted and re-created under the same name with a different shape
+		names := w.PodNames()
+		if len(names) > 0 {
+			ng2 := g
+			if ng > 1 {
+				ng2 = rapid.IntRange(0, ng-1).Draw(rt, "newGroup")
+			}
+			ps := PodSpec{Group: ng2, Via: rapid.SampledFrom([]string{"selector", "affinity", "none"}).Draw(rt, "via"),
+				CPU: int64(rapid.IntRange(0, 3000).Draw(rt, "cpu")), Mem: int64(rapid.IntRange(0, 4000).Draw(rt, "memMB")) * 1_000_000,
+				Daemon: rapid.IntRange(0, 5).Draw(rt, "daemon") == 0, Static: rapid.IntRange(0, 5).Draw(rt, "static") == 0}
+			return Action{Op: "replacePod", Names: []string{rapid.SampledFrom(names).Draw(rt, "pod")}, Pods: []PodSpec{ps}}, "replacePod"
+		}
 	case "clearNode":
 		if n, ok := needNode(); ok {
 			return Action{Op: "clearNode", Node: n}, "clearNode"
@@ -517,7 +529,7 @@ func (w *World) DrawAction(rt *rapid.T, p *Profile) (Action, string) {
 		}
 	case "fault":
 		if p.FaultFocus == "node-writes" && rapid.IntRange(0, 3).Draw(rt, "focused") > 0 {
-			f := sim.Fault{Kind: rapid.SampledFrom([]string{sim.KGet, sim.KUpdate}).Draw(rt, "kind"), Nth: rapid.IntRange(0, 3).Draw(rt, "nth")}
+			f := sim.Fault{Kind: rapid.SampledFrom([]string{sim.KGet, sim.KUpdate, sim.KGet, sim.KUpdate, sim.ATerminateInASG, sim.KDelete}).Draw(rt, "kind"), Nth: rapid.IntRange(0, 3).Draw(rt, "nth")}
 			if len(nodes) > 0 && rapid.Bool().Draw(rt, "byNode") {
 				f.Nth, f.Node = -1, rapid.SampledFrom(nodes).Draw(rt, "node")
 			}
@@ -533,6 +545,7 @@ func (w *World) DrawAction(rt *rapid.T, p *Profile) (Action, string) {
 			ReadyAfter: rapid.SampledFrom([]time.Duration{0, time.Second, 5 * time.Second, 59 * time.Second, 61 * time.Second, time.Hour}).Draw(rt, "readyAfter"),
 			NeverReady: rapid.SampledFrom([]int{0, 0, 0, 1, 3}).Draw(rt, "never"),
 			PageSize:   rapid.SampledFrom([]int{1, 2, 7, 50}).Draw(rt, "page"),
+			StaggerMod: rapid.SampledFrom([]int{0, 0, 2, 3, 5}).Draw(rt, "stagger"),
 		}
 		return Action{Op: "fleetPlan", Fleet: fp}, "fleetPlan"
 	case "oddNode":
